@@ -495,6 +495,9 @@ class Evo:
             {"name": "scopeChoice", "type": {"kind": "or", "items": [lit(), NUL]}},
             {"name": "listChoice", "type": {"kind": "or", "items": [{"kind": "array", "element": lit()}, NUL]}},
             {"name": "clientDetail", "type": lit(), "optional": True},
+            # string literals without any cased letter (as jsonrpc's "2.0")
+            {"name": "protocolTag", "type": {"kind": "stringLiteral", "value": "2.0"}},
+            {"name": "revisionTag", "type": {"kind": "stringLiteral", "value": "1"}},
         ]
         self.d["structures"].append({"name": nm, "properties": props})
         self.new_structs.append(nm)
@@ -506,7 +509,11 @@ class Evo:
             self.d["structures"].append({"name": cn, how: [R(nm)], "properties": [{"name": "ownNote", "type": B("string"), "optional": True}]})
             self.new_structs.append(cn)
             self.touched.add(cn)
-        self.log.append("E11 %s anonymous literals with special properties (+ an extending and a mixing child)" % nm)
+        self.n += 1
+        m = "verif/literals%d" % self.n
+        self.d["requests"].append({"method": m, "typeName": "Literals%dRequest" % self.n, "messageDirection": "clientToServer", "params": R(nm), "result": NUL})
+        self.new_methods.append(m)
+        self.log.append("E11 %s anonymous literals with special properties (+ an extending and a mixing child, request %s)" % (nm, m))
 
     def E12(self, static=True):
         """properties that reference OPEN enumerations (incl. the integer-based ones no property uses
@@ -557,6 +564,56 @@ class Evo:
         self.new_structs.append(nm)
         self.touched.add(nm)
         self.log.append("E13 %s: every type kind x {required, optional}" % nm)
+
+    def E15(self):
+        """a self-referential structure: REQUIRED null-admitting reference to itself and an optional array of
+        itself - sent as the params and result of a new request."""
+        nm = self.name(True)
+        self.d["structures"].append({"name": nm, "properties": [
+            {"name": "label", "type": B("string")},
+            {"name": "next", "type": {"kind": "or", "items": [R(nm), NUL]}},
+            {"name": "children", "type": {"kind": "array", "element": R(nm)}, "optional": True},
+        ]})
+        self.new_structs.append(nm)
+        self.touched.add(nm)
+        self.n += 1
+        m = "verif/recursive%d" % self.n
+        self.d["requests"].append({"method": m, "typeName": "Recursive%dRequest" % self.n, "messageDirection": "clientToServer", "params": R(nm), "result": {"kind": "or", "items": [R(nm), NUL]}})
+        self.new_methods.append(m)
+        self.log.append("E15 %s refers to itself (required nullable, optional array); request %s" % (nm, m))
+
+    def E16(self):
+        """an OPEN integer enumeration whose largest member is the largest integer, reachable from a
+        request (parsing open-enum positions needs hand-written hooks: static image + vectors only)."""
+        self.n += 1
+        en = "BoundaryKindVerif%d" % self.n
+        self.d["enumerations"].append({"name": en, "type": B("uinteger"), "supportsCustomValues": True, "values": [{"name": "Least", "value": 0}, {"name": "Middle", "value": 65536}, {"name": "Greatest", "value": 2147483647}]})
+        self.new_enums.append(en)
+        ei = "BoundaryLevelVerif%d" % self.n
+        self.d["enumerations"].append({"name": ei, "type": B("integer"), "supportsCustomValues": True, "values": [{"name": "Lowest", "value": -2147483648}, {"name": "Highest", "value": 2147483647}]})
+        self.new_enums.append(ei)
+        nm = self.name(True)
+        self.d["structures"].append({"name": nm, "properties": [{"name": "boundaryKind", "type": R(en)}, {"name": "boundaryLevel", "type": R(ei), "optional": True}, {"name": "kinds", "type": {"kind": "array", "element": R(en)}, "optional": True}]})
+        self.new_structs.append(nm)
+        m = "verif/boundary%d" % self.n
+        self.d["requests"].append({"method": m, "typeName": "Boundary%dRequest" % self.n, "messageDirection": "clientToServer", "params": R(nm), "result": NUL})
+        self.new_methods.append(m)
+        self.static_only = True
+        self.log.append("E16 open integer enumerations with extreme members (%s, %s) in the params of %s (static image only)" % (en, ei, m))
+
+    def E17(self):
+        """small structures whose only members are string literals without cased letters (few columns:
+        every probe of the test-vector generator shows in some row that is otherwise valid)."""
+        for vals in (("2.0",), ("1", "v1.0-beta"), ("",)):
+            nm = self.name(True)
+            self.d["structures"].append({"name": nm, "properties": [{"name": "tag%d" % x, "type": {"kind": "stringLiteral", "value": v}} for x, v in enumerate(vals)]})
+            self.new_structs.append(nm)
+            self.touched.add(nm)
+            self.n += 1
+            m = "verif/tags%d" % self.n
+            self.d["requests"].append({"method": m, "typeName": "Tags%dRequest" % self.n, "messageDirection": "clientToServer", "params": R(nm), "result": {"kind": "or", "items": [R(nm), NUL]}})
+            self.new_methods.append(m)
+        self.log.append("E17 literal-only structures ('2.0', '1', '') as params/result of new requests")
 
     def E14(self, depth=7):
         """an inheritance chain deeper than anything in the committed model (its deepest is 3): every
